@@ -173,6 +173,7 @@ class fp_watch:
 
     def __init__(self, ctx):
         self.ctx = ctx
+        self.tripped = []
         self.cm = warnings.catch_warnings(record=True)
 
     def __enter__(self):
@@ -183,6 +184,10 @@ class fp_watch:
     def __exit__(self, *a):
         for w in self.log:
             self.ctx.fp_warnings[w.category.__name__ + ":" + str(w.message)[:60]] += 1
+        # what a caller running with warnings as errors (python -W error, pytest filterwarnings = error) or with
+        # numpy.seterr(all="raise") would have got instead of a result: the floating-point warnings of this request
+        self.tripped = sorted({w.category.__name__ + ": " + str(w.message)[:80] for w in self.log
+                               if issubclass(w.category, RuntimeWarning)})
         return self.cm.__exit__(*a)
 
     def saw(self, category):
